@@ -331,7 +331,7 @@ class extract_visitor(NodeVisitor):
                     continue
                 name = nn  # type: ast.Name # type: ignore[assignment]
                 name.flow = pp  # type: ignore[attr-defined]
-                p.add_name(AssignedName(name.id, np(node), np(name), g.iter))
+                p.add_name(AssignedName(name.id, np(node), np(name), g.iter), local=False)
 
             if g.ifs:
                 for inode in g.ifs:
